@@ -138,16 +138,18 @@ def check(ctx: Ctx) -> list[RuleResult]:
         r1.ok({"max_retry_limit": norm(mrl[0].value), "MAX_RETRY_LIMIT": cap})
     else:
         r1.fail(f"{init.short}:max_retry_limit", init.loc(), f"max_retry_limit is not min(arg, MAX_RETRY_LIMIT) with MAX_RETRY_LIMIT == 3 (folds to {cap!r})")
-    # (e) _send_fnc invoked only by the wrapper
+    # (e) the transport write function is invoked only from a coroutine that _send_cmd schedules as a task (so it runs after the
+    #     FSM accepted the command, once per _send_cmd) - the wrapper is found by the call graph, not by its name
+    scheduled = {c for s2 in ctx.cg.calls_in(send_cmd_i) if s2.kind == "deferred" for c in s2.callees}
     for g2 in repo.funcs.values():
         for n in own_nodes(g2.node):
             if isinstance(n, ast.Call) and isinstance(n.func, ast.Attribute) and n.func.attr == "_send_fnc":
                 r1.instances += 1
                 r1.nontrivial += 1
-                if g2.qualname == f"{PC}._send_cmd.send_fnc_wrapper":
-                    r1.ok({"write_fn_called_from": g2.short})
+                if g2 in scheduled:
+                    r1.ok({"write_fn_called_from": g2.short, "scheduled_by": "_send_cmd (create_task)"})
                 else:
-                    r1.fail(f"{g2.short}:calls-_send_fnc", g2.loc(n), "the transport write function is invoked outside send_fnc_wrapper")
+                    r1.fail(f"{g2.short}:calls-_send_fnc", g2.loc(n), "the transport write function is invoked outside the task that _send_cmd schedules")
     out.append(r1)
 
     # ---- R2 ---------------------------------------------------------------------------
